@@ -6,6 +6,7 @@
 //   I <cprec 32|64> <index type i|l> c1..cN   -> "r1 .. rN"   (signed decimal)
 //   S s1..sN                                  -> "set <cells>"
 //   A <cprec 32|64> c1..cN                    -> "<bit pattern of the double returned>"
+#include "ambient.hpp"
 #include <covfie/core/backend/primitive/array.hpp>
 #include <covfie/core/backend/primitive/identity.hpp>
 #include <covfie/core/backend/transformer/nearest_neighbour.hpp>
@@ -69,6 +70,7 @@ int main() {
   std::unique_ptr<field<NA<float>>> ff;
   std::unique_ptr<field<NA<double>>> fd;
   while (std::getline(std::cin, line)) {
+    vf::ambient();
     std::istringstream is(line);
     std::string op; is >> op;
     if (op == "I") {
